@@ -57,6 +57,33 @@ pub fn c13(tier: &str, seed: u64) -> Vec<Case> {
     let thorough = tier == "thorough";
     let mut r = Rng::new(seed);
     let mut v = vec![];
+    // large answers: dozens of long records under one name - every one of them is in the reply, however large that makes it
+    // (what can be sent is the sender's business, C14; what is *included* is this property's)
+    for (count, len) in [(60usize, 200usize), (45, 250), (200, 40), (12, 255)] {
+        let mut mgr = ResourceRecordManager::new();
+        let owner = mk_name(&[b"bulk".to_vec(), b"local".to_vec()]);
+        let mut line = String::from("mdns");
+        for k in 0..count {
+            let mut text = format!("k{}=", k).into_bytes();
+            while text.len() < len { text.push(b'a' + (k % 26) as u8); }
+            let rr = ResourceRecord::new(owner.clone(), CLASS::IN, 120, RData::TXT(TXT::new().with_char_string(crate::gen::mk_cs(&text))));
+            mgr.add_authoritative_resource(rr.clone());
+            line.push_str(&format!(" A {}", text::rr(&rr)));
+        }
+        let mut q = Packet::new_query(9);
+        q.questions.push(Question::new(owner.clone(), QTYPE::TYPE(TYPE::TXT), CLASS::IN.into(), false));
+        line.push_str(&format!(" Q {} 5", text::packet(&q)));
+        let mref: &ResourceRecordManager = &mgr;
+        let reply = std::panic::catch_unwind(std::panic::AssertUnwindSafe(|| build_reply(q, mref)));
+        let (out, n) = match &reply {
+            Err(_) => ("panic".to_string(), 0),
+            Ok(None) => ("none".to_string(), 0),
+            Ok(Some((p, u))) => (format!("some {} {} {} answers {} additional {}", p.id(), text::flag_bits(p), *u as u8, sorted(p.answers.iter().map(text::rr).collect()), sorted(p.additional_records.iter().map(text::rr).collect())), p.answers.len()),
+        };
+        let mut c = Case::new(line, out).tag("large-answer");
+        if n != count { c = c.fail("answer-missing", format!("{} registered TXT records of {} bytes under the asked name, {} in the reply", count, len, n)); }
+        v.push(c);
+    }
     let n = if thorough { 60_000 } else { 5_000 };
     for it in 0..n {
         // a small universe of names per history so that exact, parent and colliding names all occur
@@ -399,6 +426,8 @@ fn history(seed: u64, steps: usize) -> Vec<Case> {
 pub fn c20(tier: &str, seed: u64) -> Vec<Case> {
     let (threads, steps, rounds) = if tier == "thorough" { (64usize, 9usize, 8usize) } else { (64, 8, 1) };
     let mut v = vec![];
+    // the store is also written by the services' background refresh: the live case runs beside everything below
+    let live = std::thread::spawn(crate::props::svc::live_short_ttl);
     // the lifetime computed for every TTL (the histories below can only watch the first seconds of a life): a record
     // received with TTL t expires t seconds after it was received - every t up to two hours, then samples up to 2^32 - 1;
     // the refresh point is compared with the model
@@ -413,6 +442,24 @@ pub fn c20(tier: &str, seed: u64) -> Vec<Case> {
             else if refresh > expire { c = c.fail("refresh-time", format!("TTL {}: refresh due after {} s, later than the expiry", t, refresh)); }
             v.push(c);
         }
+    }
+    // a record that arrives with the cache-flush bit lives one second itself; what it means for the *other* cached records
+    // of its name is not this library's business (it keeps them for their own TTL): two address records of one host, the
+    // second arriving with the bit - 1.3 s later the first is still returned and the second is gone
+    {
+        let mut mgr: ResourceRecordManager<'static> = ResourceRecordManager::new();
+        let host = mk_name(&[b"twin".to_vec(), b"local".to_vec()]);
+        let first = ResourceRecord::new(host.clone(), CLASS::IN, 1000, RData::A(A { address: 1 }));
+        let second = ResourceRecord::new(host.clone(), CLASS::IN, 1000, RData::A(A { address: 2 })).with_cache_flush(true);
+        mgr.add_cached_resource(first.clone());
+        mgr.add_cached_resource(second.clone());
+        std::thread::sleep(Duration::from_millis(1300));
+        let got: Vec<String> = mgr.get_domain_resources(&host, DomainResourceFilter::cached()).flatten().map(|r| text::rr(r)).collect();
+        let mut c = Case::oracle_only().tag("flush-sibling");
+        let has = |r: &ResourceRecord| got.iter().any(|g| g.ends_with(&text::rdata(&r.rdata)));
+        if !has(&first) { c = c.fail("cache-expiry", "a cached record with TTL 1000 is gone 1.3 s after another record of its name and type arrived with the cache-flush bit".into()); }
+        if has(&second) { c = c.fail("cache-expiry", "a record received with the cache-flush bit is still returned 1.3 s later".into()); }
+        v.push(c);
     }
     // many records under one name: all of them are kept (a host with dozens of addresses, a service type with dozens of
     // instances), cached and authoritative alike
@@ -437,5 +484,6 @@ pub fn c20(tier: &str, seed: u64) -> Vec<Case> {
         let handles: Vec<_> = (0..threads).map(|i| { let s = seed.wrapping_mul(1000).wrapping_add((round * threads + i) as u64); std::thread::spawn(move || history(s, steps)) }).collect();
         for h in handles { v.extend(h.join().unwrap()); }
     }
+    if let Ok(cases) = live.join() { v.extend(cases); }
     v
 }
